@@ -1,4 +1,5 @@
-"""C05 -- COG layout arithmetic (narrow claim: the layout rule, tile indexing, offset patching)."""
+"""C05 -- COG layout arithmetic, the real header builder on symbolic shapes, and the task-graph
+construction of the parallel writer with dask/tifffile replaced by recorders."""
 from __future__ import annotations
 
 import itertools
@@ -14,13 +15,17 @@ EXPLANATION = (
     "norm_blocksize), overview count by halving (num_overviews), padded shape (compute_cog_spec incl. max_pad), the "
     "tile-index bijection and enumeration order of CogMeta (chunked, num_tiles, flat_tile_idx, tidx, cog_tidx), the "
     "offset/byte-count computation of _extract_tile_info from an observed (size, tile id) stream in a symbolic order, "
-    "and the per-level GeoBoxes (cog_gbox / expand / shrink2 / zoom_to)."
+    "and the per-level GeoBoxes (cog_gbox / expand / shrink2 / zoom_to).  The real _make_empty_cog runs on symbolic "
+    "image shapes with tifffile.TiffWriter recorded (L9), the announced tile grid is compared with the source block "
+    "grid (L10), and save_cog_with_dask/_compress_tiles run with dask, the compressor, the pyramid reprojection and the "
+    "sink replaced by recorders: task names, tile<->block pairing, write order (L11)."
 )
 ASSUMPTIONS = [
-    "narrow claim: TIFF header bytes (tifffile), compression, the dask graph and its schedules, decoding by independent readers are outside the solver's reach; byte-stream assembly is C06",
+    "outside the claim: TIFF header bytes (tifffile), compression, dask's execution of the graph, decoding by independent readers; byte-stream assembly is C06",
     "image sides <= 2^20 where the overview loop is unrolled; tile counts <= 4 per axis and <= 3 planes where tiles are enumerated (case split)",
     "_extract_tile_info: <= 4 observed tiles with symbolic sizes >= 0 in a symbolic order (a permutation chosen by symbolic flags)",
-    "per-level GeoBoxes: the level loop of _make_empty_cog (shrink2 + zoom_to) is mirrored by the harness on the real methods",
+    "L6 mirrors the level loop of _make_empty_cog on the real methods; L9 runs the real loop (image sides <= 200)",
+    "L11: dask's tokenize is assumed to separate nothing (constant token): task names must be distinct by construction",
 ]
 
 
